@@ -49,6 +49,9 @@ class Contract:
         self.arith = kw.pop("arith", "real")
         self.notes = kw.pop("notes", "")
         self.labels = kw.pop("labels", {})  # ensures-index -> label
+        # property -> regex over obligation-group names: a property that is NOT in `props` owns only those obligations of
+        # this function (the rest is another property's business and is verified under it)
+        self.prop_groups = dict(kw.pop("prop_groups", {}))
         self.ghost = dict(kw.pop("ghost", {}))  # ghost vars introduced for this function: name -> (type, init expr)
         self.replay = kw.pop("replay", None)  # name of runtime replay/scope driver
         self.inline = kw.pop("inline", False)
